@@ -445,7 +445,9 @@ class Base:
         # ---------------- inodes
         if role in ("root", "lpf", "dir_htree", "dir_lin", "dir_small", "file_big", "file_sparse", "file_small", "file_xattr", "file_inline",
                     "lnk_fast", "lnk_slow", "chr", "fifo", "journal", "resize", "quota_usr", "quota_grp", "orphan_file", "ea_inode",
-                    "free_inode"):
+                    "free_inode") or role.startswith("ino@"):
+            # "ino@<n>": an inode addressed by number (boundary roles of gen/c01_extras.py resolve to this form)
+            if role.startswith("ino@"): R = dict(R, **{role: int(role[4:])})
             if role not in R: raise NoBind("role absent")
             ino = R[role]; I = self.ino.get(ino)
             o = self.inode_off(ino); isz = geo["isize"]
@@ -489,12 +491,15 @@ class Base:
             raise NoBind("field")
 
         # ---------------- extent / indirect blocks
-        if role == "ext_block":
-            for r in ("file_sparse", "dir_htree", "file_big"):
-                ino = R.get(r)
-                if ino and self.ino[ino]["own"]["index"]:
-                    blk = self.ino[ino]["own"]["index"][0][0]; break
-            else: raise NoBind("no extent block")
+        if role == "ext_block" or role.startswith("extblk@"):
+            if role.startswith("extblk@"):          # "extblk@<block>@<inode>": a tree block addressed by number
+                blk, ino = (int(x) for x in role.split("@")[1:3])
+            else:
+                for r in ("file_sparse", "dir_htree", "file_big"):
+                    ino = R.get(r)
+                    if ino and self.ino[ino]["own"]["index"]:
+                        blk = self.ino[ino]["own"]["index"][0][0]; break
+                else: raise NoBind("no extent block")
             o = blk * bs
             if field == "tail_csum":
                 if not self.meta_csum: raise NoBind("no checksum")
@@ -624,10 +629,14 @@ class Base:
             b = self.some_block_of(R.get("file_small", 0))
             if b is None: raise NoBind("file_small has no block")
             return (b - geo["first"]) // geo["bpg"]
-        if role in ("gd_first", "gd_mid", "gd_last", "gd_small"):
-            g = small_group() if role == "gd_small" else {"gd_first": 0, "gd_mid": geo["gdc"] // 2, "gd_last": geo["gdc"] - 1}[role]
-            if role not in ("gd_first", "gd_small") and g == 0: raise NoBind("single group")
-            if role == "gd_mid" and g == geo["gdc"] - 1: raise NoBind("two groups")
+        if role in ("gd_first", "gd_mid", "gd_last", "gd_small") or role.startswith("gd@"):
+            if role.startswith("gd@"):              # "gd@<g>": the descriptor of group g
+                g = int(role[3:])
+                if not 0 <= g < geo["gdc"]: raise NoBind("no such group")
+            else:
+                g = small_group() if role == "gd_small" else {"gd_first": 0, "gd_mid": geo["gdc"] // 2, "gd_last": geo["gdc"] - 1}[role]
+                if role not in ("gd_first", "gd_small") and g == 0: raise NoBind("single group")
+                if role == "gd_mid" and g == geo["gdc"] - 1: raise NoBind("two groups")
             o = loc["gd%d" % g]; fx = ("gd", g)
             off, w = GD_F[field]
             if field in ("bg_bb_csum", "bg_ib_csum") and not self.meta_csum: raise NoBind("no checksum")
@@ -649,10 +658,14 @@ class Base:
                 return setint(o, off, 4, new=new), fx
             return setint(o, off, w), fx
 
-        if role in ("bb_first", "bb_last", "ib_first", "ib_last", "bb_small"):
+        if role in ("bb_first", "bb_last", "ib_first", "ib_last", "bb_small") or role[:3] in ("bb@", "ib@"):
             kind = role[:2]
-            g = small_group() if role == "bb_small" else (0 if role.endswith("first") else geo["gdc"] - 1)
-            if role.endswith("last") and g == 0: raise NoBind("single group")
+            if role[2] == "@":                      # "bb@<g>" / "ib@<g>": the bitmap of group g
+                g = int(role[3:])
+                if not 0 <= g < geo["gdc"]: raise NoBind("no such group")
+            else:
+                g = small_group() if role == "bb_small" else (0 if role.endswith("first") else geo["gdc"] - 1)
+                if role.endswith("last") and g == 0: raise NoBind("single group")
             o = loc.get("%s%d" % (kind, g))
             if o is None: raise NoBind("bitmap uninitialised")
             if kind == "bb":
